@@ -1001,6 +1001,13 @@ class Exec:
             return self.rand_index(self.to_int(self.ev(other)))
         fn = self.fname(n.func)
         if fn is None:
+            if self.c.py_mode and isinstance(n.func, ast.Attribute):
+                try:
+                    recv = self.ev(n.func.value)
+                except Undecidable:
+                    recv = None
+                if recv is not None and recv.k == "arr" and n.func.attr in ("copy", "fill", "min", "max"):
+                    return self.method_call(recv, n.func.attr, n)
             if self.c.py_mode:
                 d = None
                 try:
@@ -1343,6 +1350,13 @@ class Exec:
                     c = z3.K(I, c)
                 self.heap[a.id] = c
                 return Val("none")
+            if name == "copy" and not n.args:
+                r = ArrObj(f"copy_{next(self.n)}", a.elem, a.ndim, self.fm, shape=list(a.shape), fresh=True)
+                r.contig = True
+                r.is_bool = getattr(a, "is_bool", False)
+                self.objs[r.id] = r
+                self.heap[r.id] = self.heap[a.id]
+                return Val("arr", r, recv.ty)
             if name in ("min", "max") and self.fm.mode == "R" and not n.args and not n.keywords:
                 # NumPy semantics (assumed): a.min() <= every element <= a.max(); empty arrays raise ValueError
                 key = ("minmax", a.id, id(self.heap[a.id]))
